@@ -114,7 +114,10 @@ class C05(Property):
             feats = {"exec": 7, "scatter": 5} if rng.random() < 0.45 else ({"cart": 4, "gather": 6} if rng.random() < 0.25 else ({"loop": 3} if rng.random() < 0.25 else None))
             if i >= len(wfgen.CORPUS):
                 spec = wfgen.gen_spec(rng, size=rng.randint(2, 12), features=feats)
-            items.append((spec, [rng.randrange(1 << 30) for _ in range(k)]))
+            seeds = [rng.randrange(1 << 30) for _ in range(k)]
+            if i < len(wfgen.CORPUS):
+                seeds = [2 + j for j in range(k)]      # corpus: fixed schedules, the first one with reverse job completion order
+            items.append((spec, seeds))
         for i, (spec, seeds) in enumerate(items):
             if ctx.out_of_time():
                 ctx.extra["incomplete"] = True
